@@ -1,19 +1,1647 @@
-//! service engine (ops starting with `s`).
+//! service engine (ops starting with `s`): C11 (NODES validation / bans / packet accounting),
+//! C12 (routing-table admission and update policy), C14 (served FINDNODE / PING answers),
+//! C17 (service half of the IP vote) against the real `Service` started with
+//! `Discv5::start_scripted()`: the harness plays the handler.
+//!
+//! Script vocabulary (X, Y = instance letters):
+//!   snew X KEY SEQ SHAPE PAD MODE FILTER MAXN MAXIN ENRUPD   start an instance
+//!   sadd X REC | sest X REC ADDR i|o | srm X PEER | sunverifiable X REC
+//!   sreq X PEER ADDR RID ping SEQ | findnode D,D,.. | talk PROTO PAYLOAD     request from a peer
+//!   sresp X REF SRC nodes TOTAL ITEMS | pong SEQ ADDR | talk PAYLOAD         answer to a request X emitted
+//!   sfail X REF | squery X TARGET | sapi X ping REC | findnode REC DS | talk REC PROTO PAYLOAD
+//!   shonest X REF Y         deliver X's FINDNODE to instance Y, feed Y's NODES packets back
+//!   stable X | sbans | slocal X
+//! REC = k<seed>:<seq>:<shape>:<pad>; REF = #<n> | #q | #e | #p | #c | #l | #d.
 #![allow(unused)]
 use crate::rng::Rng;
 use crate::util::*;
 use crate::{Runner, Stats};
+use discv5::enr::{CombinedKey, EnrKey, NodeId};
+use discv5::verif::service::{
+    ban_reset, ban_take, response_encode, HandlerIn, HandlerOut, Request, RequestBody, RequestId, Response,
+    ResponseBody,
+};
+use discv5::{
+    ConfigBuilder, ConnectionDirection, Discv5, Enr, Event, IpMode, ListenConfig, NodeAddress, NodeContact,
+    RequestError, TalkRequest,
+};
+use std::cell::RefCell;
+use std::collections::{BTreeMap, BTreeSet, HashMap, HashSet};
+use std::net::{IpAddr, Ipv4Addr, Ipv6Addr, SocketAddr};
+use std::num::NonZeroU16;
+use std::time::Duration;
+use tokio::sync::mpsc;
 
-#[derive(Default)]
-pub struct ServiceRunner;
+// ------------------------------------------------------------------------------------------------
+// keys, records, canonical forms
 
-impl Runner for ServiceRunner {
-    fn reset(&mut self) {}
-    fn step(&mut self, _line: &str, out: &mut Vec<String>, _stats: &mut Stats) {
-        out.push("bad-op".into());
+thread_local! {
+    static KEY_IDS: RefCell<HashMap<u64, [u8; 32]>> = RefCell::new(HashMap::new());
+}
+
+pub fn key_of(seed: u64) -> CombinedKey {
+    let mut r = Rng::new(seed.wrapping_mul(0x9E37_79B9_7F4A_7C15) ^ 0x5EED_5EED);
+    key_from(&mut r)
+}
+
+pub fn id_of_seed(seed: u64) -> [u8; 32] {
+    if let Some(v) = KEY_IDS.with(|m| m.borrow().get(&seed).copied()) {
+        return v;
+    }
+    let id = NodeId::from(key_of(seed).public()).raw();
+    KEY_IDS.with(|m| m.borrow_mut().insert(seed, id));
+    id
+}
+
+/// 0-based index of the highest differing bit (`log2 distance - 1`), `None` for equal ids.
+pub fn log2_idx(a: &[u8; 32], b: &[u8; 32]) -> Option<usize> {
+    for i in 0..32 {
+        let x = a[i] ^ b[i];
+        if x != 0 {
+            return Some(255 - (i * 8 + x.leading_zeros() as usize));
+        }
+    }
+    None
+}
+
+/// log2 distance by byte arithmetic: 0 for equal ids.
+pub fn dist(a: &[u8; 32], b: &[u8; 32]) -> u64 {
+    log2_idx(a, b).map(|i| i as u64 + 1).unwrap_or(0)
+}
+
+/// Finds a key seed `base*8192 + i` whose node id satisfies `pred`.
+pub fn mine(base: u64, pred: impl Fn(&[u8; 32]) -> bool) -> Option<u64> {
+    for i in 0..8192u64 {
+        let s = 1_000_000 + base.wrapping_mul(8192).wrapping_add(i) % 4_000_000_000;
+        if pred(&id_of_seed(s)) {
+            return Some(s);
+        }
+    }
+    None
+}
+
+pub fn ip4_of(seed: u64, alt: bool) -> (Ipv4Addr, u16) {
+    (
+        Ipv4Addr::new(10, (seed >> 8) as u8, seed as u8, if alt { 8 } else { 7 }),
+        9000 + (seed % 500) as u16 + if alt { 1000 } else { 0 },
+    )
+}
+
+pub fn ip6_of(seed: u64, alt: bool) -> (Ipv6Addr, u16) {
+    (
+        Ipv6Addr::new(0x2001, 0xdb8, 0, 0, 0, if alt { 1 } else { 0 }, (seed >> 16) as u16, seed as u16),
+        9100 + (seed % 500) as u16,
+    )
+}
+
+/// Builds the record of `k<seed>:<seq>:<shape>:<pad>`.  Shape flags: `4` ip4+udp4, `i` ip4 without
+/// port, `6` canonical ip6+udp6, `m` IPv4-mapped ip6+udp6, `r` carries the key "rej" (refused by the
+/// rejecting table filter), `x` alternative addresses.
+pub fn build_rec(seed: u64, seq: u64, shape: &str, pad: usize) -> Option<Enr> {
+    let key = key_of(seed);
+    let alt = shape.contains('x');
+    let mut pad = pad;
+    loop {
+        let mut b = Enr::builder();
+        b.seq(seq);
+        if shape.contains('4') {
+            let (ip, port) = ip4_of(seed, alt);
+            b.ip4(ip);
+            b.udp4(port);
+        } else if shape.contains('i') {
+            b.ip4(ip4_of(seed, alt).0);
+        }
+        if shape.contains('6') {
+            let (ip, port) = ip6_of(seed, alt);
+            b.ip6(ip);
+            b.udp6(port);
+        } else if shape.contains('m') {
+            let (ip, port) = ip4_of(seed, alt);
+            b.ip6(ip.to_ipv6_mapped());
+            b.udp6(port);
+        }
+        if shape.contains('r') {
+            b.add_value("rej", &1u8);
+        }
+        if pad > 0 {
+            b.add_value("pad", &alloy_rlp::bytes::Bytes::from(vec![0xabu8; pad]));
+        }
+        match b.build(&key) {
+            Ok(e) => return Some(e),
+            Err(_) if pad > 0 => pad = pad.saturating_sub(4),
+            Err(_) => return None,
+        }
     }
 }
 
-pub fn gen_case(_rng: &mut Rng, _tier: &str, _profile: &str, _stats: &mut Stats) -> Vec<String> {
+pub fn parse_rec(tok: &str) -> Option<Enr> {
+    let f: Vec<&str> = tok.split(':').collect();
+    if f.len() != 4 {
+        return None;
+    }
+    let seed: u64 = f[0].strip_prefix('k')?.parse().ok()?;
+    build_rec(seed, f[1].parse().ok()?, f[2], f[3].parse().ok()?)
+}
+
+pub fn rec_size(e: &Enr) -> usize {
+    alloy_rlp::encode(e).len()
+}
+
+pub fn sock_num(a: &SocketAddr) -> String {
+    match a {
+        SocketAddr::V4(s) => format!("4~{}", (u32::from(*s.ip()) as u128) * 65536 + s.port() as u128),
+        SocketAddr::V6(s) => format!("6~{}", u128::from(*s.ip()) * 65536 + s.port() as u128),
+    }
+}
+
+pub fn ip_num(a: &IpAddr) -> String {
+    match a {
+        IpAddr::V4(s) => format!("4~{}", u32::from(*s)),
+        IpAddr::V6(s) => format!("6~{}", u128::from(*s)),
+    }
+}
+
+pub fn is_mapped(ip: &Ipv6Addr) -> bool {
+    let o = ip.octets();
+    o[..10].iter().all(|b| *b == 0) && o[10] == 0xff && o[11] == 0xff
+}
+
+#[derive(Clone, Copy, PartialEq, Eq, Debug)]
+pub enum Filter {
+    All,
+    Rej,
+}
+
+pub fn filter_rej(e: &Enr) -> bool {
+    e.get_raw_rlp("rej").is_none()
+}
+
+pub fn passes(f: Filter, e: &Enr) -> bool {
+    match f {
+        Filter::All => true,
+        Filter::Rej => filter_rej(e),
+    }
+}
+
+/// The harness's own reading of `get_contactable_addr`.
+pub fn contactable_addr(mode: IpMode, e: &Enr) -> Option<SocketAddr> {
+    let v4 = e.udp4_socket().map(SocketAddr::V4);
+    let v6 = e.udp6_socket().filter(|s| !is_mapped(s.ip())).map(SocketAddr::V6);
+    match mode {
+        IpMode::Ip4 => v4,
+        IpMode::Ip6 => v6,
+        IpMode::DualStack => v6.or(v4),
+    }
+}
+
+/// Abstract record of the model: id:seq:udp4:udp6:mapped:size:passesFilter:sig
+pub fn rec_abs(e: &Enr, f: Filter) -> String {
+    let u4 = e
+        .udp4_socket()
+        .map(|s| ((u32::from(*s.ip()) as u128) * 65536 + s.port() as u128).to_string())
+        .unwrap_or_else(|| "-".into());
+    let u6 = e
+        .udp6_socket()
+        .map(|s| (u128::from(*s.ip()) * 65536 + s.port() as u128).to_string())
+        .unwrap_or_else(|| "-".into());
+    let mapped = e.udp6_socket().map(|s| is_mapped(s.ip())).unwrap_or(false);
+    let sig = e.signature();
+    let mut sg: u64 = 0;
+    for b in sig.iter().take(6) {
+        sg = sg * 256 + *b as u64;
+    }
+    format!(
+        "{}:{}:{}:{}:{}:{}:{}:{}",
+        hex::encode(e.node_id().raw()),
+        e.seq(),
+        u4,
+        u6,
+        mapped as u8,
+        rec_size(e),
+        passes(f, e) as u8,
+        sg
+    )
+}
+
+pub fn id8(id: &[u8; 32]) -> String {
+    hex::encode(&id[..4])
+}
+
+pub fn rec_short(e: &Enr) -> String {
+    format!("{}/{}", id8(&e.node_id().raw()), e.seq())
+}
+
+pub fn parse_addr(tok: &str) -> Option<SocketAddr> {
+    let (ip, port) = tok.rsplit_once('/')?;
+    let port: u16 = port.parse().ok()?;
+    if ip.contains('.') {
+        Some(SocketAddr::new(IpAddr::V4(ip.parse().ok()?), port))
+    } else {
+        let b: [u8; 16] = hex::decode(ip).ok()?.try_into().ok()?;
+        Some(SocketAddr::new(IpAddr::V6(Ipv6Addr::from(b)), port))
+    }
+}
+
+pub fn show_addr_tok(a: &SocketAddr) -> String {
+    match a {
+        SocketAddr::V4(s) => format!("{}/{}", s.ip(), s.port()),
+        SocketAddr::V6(s) => format!("{}/{}", hex::encode(s.ip().octets()), s.port()),
+    }
+}
+
+/// `k<seed>` or 64 hex digits.
+pub fn parse_peer(tok: &str) -> Option<[u8; 32]> {
+    if let Some(s) = tok.strip_prefix('k') {
+        return Some(id_of_seed(s.parse().ok()?));
+    }
+    hex::decode(tok).ok()?.try_into().ok()
+}
+
+pub fn parse_dists(tok: &str) -> Option<Vec<u64>> {
+    if tok == "-" {
+        return Some(vec![]);
+    }
+    tok.split(',').map(|d| d.parse().ok()).collect()
+}
+
+pub fn show_dists(ds: &[u64], sep: &str) -> String {
+    if ds.is_empty() {
+        "-".into()
+    } else {
+        ds.iter().map(|d| d.to_string()).collect::<Vec<_>>().join(sep)
+    }
+}
+
+// ------------------------------------------------------------------------------------------------
+// instances
+
+pub struct EmittedReq {
+    pub id: RequestId,
+    pub contact: NodeContact,
+    pub body: RequestBody,
+    pub is_query: bool,
+    pub callback: bool,
+    /// harness's own belief (used to resolve symbolic references and by the C11 monitors)
+    pub outstanding: bool,
+    /// NODES accounting recomputed by the harness
+    pub count: usize,
+    pub received: usize,
+    /// ids sent per processed packet (1-based packet index = position + 1) and whether on-distance
+    pub packets: Vec<Vec<([u8; 32], bool)>>,
+    pub completed_seen: bool,
+}
+
+#[derive(Clone, PartialEq, Eq, Debug)]
+pub struct SnapNode {
+    pub id: [u8; 32],
+    pub enr: Enr,
+    pub conn: bool,
+    pub incoming: bool,
+}
+
+#[derive(Clone, Default, Debug)]
+pub struct SnapBucket {
+    pub nodes: Vec<SnapNode>,
+    pub pending: Option<SnapNode>,
+}
+
+pub enum Obs {
+    Req(usize),
+    Resp(NodeAddress, Response),
+    Way(String),
+    Ev(Event),
+}
+
+pub struct Inst {
+    pub name: char,
+    pub discv5: Discv5,
+    pub hin: Option<mpsc::UnboundedReceiver<HandlerIn>>,
+    pub hout: mpsc::Sender<HandlerOut>,
+    pub events: mpsc::Receiver<Event>,
+    pub local_id: [u8; 32],
+    pub local_seed: u64,
+    pub mode: IpMode,
+    pub filter: Filter,
+    pub max_nodes: usize,
+    pub enr_update: bool,
+    pub reqs: Vec<EmittedReq>,
+    pub req_ids: HashMap<Vec<u8>, usize>,
+    pub api: Vec<(usize, tokio::task::JoinHandle<String>)>,
+    pub query: Option<tokio::task::JoinHandle<String>>,
+    pub prev: BTreeMap<usize, SnapBucket>,
+}
+
+pub fn parse_mode(s: &str) -> Option<IpMode> {
+    match s {
+        "ip4" => Some(IpMode::Ip4),
+        "ip6" => Some(IpMode::Ip6),
+        "dual" => Some(IpMode::DualStack),
+        _ => None,
+    }
+}
+
+impl Inst {
+    /// Must be called inside the runtime context.
+    pub fn start(
+        rt: &tokio::runtime::Runtime,
+        name: char,
+        seed: u64,
+        enr: Enr,
+        mode: IpMode,
+        filter: Filter,
+        max_nodes: usize,
+        max_in: usize,
+        enr_update: bool,
+        vote_min: usize,
+    ) -> Option<Inst> {
+        let _g = rt.enter();
+        let listen = match mode {
+            IpMode::Ip4 => ListenConfig::Ipv4 { ip: Ipv4Addr::UNSPECIFIED, port: 9000 },
+            IpMode::Ip6 => ListenConfig::Ipv6 { ip: Ipv6Addr::UNSPECIFIED, port: 9000 },
+            IpMode::DualStack => ListenConfig::DualStack {
+                ipv4: Ipv4Addr::UNSPECIFIED,
+                ipv4_port: 9000,
+                ipv6: Ipv6Addr::UNSPECIFIED,
+                ipv6_port: 9001,
+            },
+        };
+        let mut cb = ConfigBuilder::new(listen);
+        cb.max_nodes_response(max_nodes);
+        cb.incoming_bucket_limit(max_in.min(16));
+        cb.ping_interval(Duration::from_secs(1_000_000));
+        cb.enr_peer_update_min(vote_min.max(2));
+        if filter == Filter::Rej {
+            cb.table_filter(filter_rej);
+        }
+        if !enr_update {
+            cb.disable_enr_update();
+        }
+        let config = cb.build();
+        let key = key_of(seed);
+        let local_id = enr.node_id().raw();
+        let mut d = Discv5::new(enr, key, config).ok()?;
+        let (hin, hout) = d.start_scripted().ok()?;
+        let events = rt.block_on(d.event_stream()).ok()?;
+        ban_reset();
+        Some(Inst {
+            name,
+            discv5: d,
+            hin: Some(hin),
+            hout,
+            events,
+            local_id,
+            local_seed: seed,
+            mode,
+            filter,
+            max_nodes,
+            enr_update,
+            reqs: Vec::new(),
+            req_ids: HashMap::new(),
+            api: Vec::new(),
+            query: None,
+            prev: BTreeMap::new(),
+        })
+    }
+
+    pub fn snapshot(&self) -> BTreeMap<usize, SnapBucket> {
+        let t = self.discv5.kbuckets();
+        let mut out = BTreeMap::new();
+        for (i, b) in t.buckets_iter().enumerate() {
+            let nodes: Vec<SnapNode> = b
+                .iter()
+                .map(|n| SnapNode {
+                    id: n.key.preimage().raw(),
+                    enr: n.value.clone(),
+                    conn: n.status.is_connected(),
+                    incoming: n.status.is_incoming(),
+                })
+                .collect();
+            let pending = b.pending().map(|p| SnapNode {
+                id: p.value().node_id().raw(),
+                enr: p.value().clone(),
+                conn: p.status().is_connected(),
+                incoming: p.status().is_incoming(),
+            });
+            if !nodes.is_empty() || pending.is_some() {
+                out.insert(i, SnapBucket { nodes, pending });
+            }
+        }
+        out
+    }
+
+    pub fn digest(snap: &BTreeMap<usize, SnapBucket>, full: bool) -> String {
+        if snap.is_empty() {
+            return "empty".into();
+        }
+        let show = |n: &SnapNode| {
+            format!(
+                "{}/{}/{}/{}",
+                if full { hex::encode(n.id) } else { id8(&n.id) },
+                if n.conn { "c" } else { "d" },
+                if n.incoming { "i" } else { "o" },
+                n.enr.seq()
+            )
+        };
+        snap.iter()
+            .map(|(i, b)| {
+                format!(
+                    "{}:[{}]p={}",
+                    i,
+                    b.nodes.iter().map(show).collect::<Vec<_>>().join(","),
+                    b.pending.as_ref().map(show).unwrap_or_else(|| "-".into())
+                )
+            })
+            .collect::<Vec<_>>()
+            .join(";")
+    }
+
+    /// Drains everything the service emitted.
+    pub fn drain(&mut self, op_is_query: bool, op_is_api: bool) -> Vec<Obs> {
+        let mut out = Vec::new();
+        if let Some(hin) = self.hin.as_mut() {
+            while let Ok(m) = hin.try_recv() {
+                match m {
+                    HandlerIn::Request(contact, req) => {
+                        let k = self.reqs.len() + 1;
+                        let is_findnode = matches!(req.body, RequestBody::FindNode { .. });
+                        let first_api = op_is_api && !out.iter().any(|o| matches!(o, Obs::Req(_)));
+                        self.req_ids.insert(req.id.0.clone(), k);
+                        self.reqs.push(EmittedReq {
+                            id: req.id.clone(),
+                            contact,
+                            body: req.body.clone(),
+                            is_query: op_is_query && is_findnode,
+                            callback: first_api,
+                            outstanding: true,
+                            count: 1,
+                            received: 0,
+                            packets: Vec::new(),
+                            completed_seen: false,
+                        });
+                        out.push(Obs::Req(k));
+                    }
+                    HandlerIn::Response(addr, resp) => out.push(Obs::Resp(addr, *resp)),
+                    HandlerIn::WhoAreYou(r, enr) => out.push(Obs::Way(format!(
+                        "way:{}@{}:{}",
+                        id8(&r.0.node_id.raw()),
+                        sock_num(&r.0.socket_addr),
+                        enr.map(|e| rec_short(&e)).unwrap_or_else(|| "-".into())
+                    ))),
+                }
+            }
+        }
+        while let Ok(e) = self.events.try_recv() {
+            out.push(Obs::Ev(e));
+        }
+        out
+    }
+
+    pub fn resolve_ref(&self, tok: &str) -> Option<usize> {
+        let t = tok.strip_prefix('#')?;
+        let find = |pred: &dyn Fn(&EmittedReq) -> bool| self.reqs.iter().position(|r| pred(r)).map(|i| i + 1);
+        match t {
+            "q" => find(&|r| r.outstanding && r.is_query),
+            "e" => find(&|r| {
+                r.outstanding && !r.is_query && !r.callback && matches!(r.body, RequestBody::FindNode { .. })
+            }),
+            "p" => find(&|r| r.outstanding && !r.callback && matches!(r.body, RequestBody::Ping { .. })),
+            "c" => find(&|r| r.outstanding && r.callback),
+            "l" => {
+                if self.reqs.is_empty() {
+                    None
+                } else {
+                    Some(self.reqs.len())
+                }
+            }
+            "d" => self
+                .reqs
+                .iter()
+                .rposition(|r| !r.outstanding && !r.callback && matches!(r.body, RequestBody::FindNode { .. }))
+                .map(|i| i + 1),
+            n => {
+                let k: usize = n.parse().ok()?;
+                if k >= 1 && k <= self.reqs.len() {
+                    Some(k)
+                } else {
+                    None
+                }
+            }
+        }
+    }
+}
+
+pub fn show_req_body(b: &RequestBody) -> String {
+    match b {
+        RequestBody::Ping { enr_seq } => format!("ping:{}", enr_seq),
+        RequestBody::FindNode { distances } => format!("findnode:{}", show_dists(distances, ".")),
+        RequestBody::Talk { protocol, request } => format!("talk:{}:{}", hx(protocol), hx(request)),
+    }
+}
+
+pub fn show_resp(addr: &NodeAddress, r: &Response) -> String {
+    let head = format!("resp:{}@{}:{}", id8(&addr.node_id.raw()), sock_num(&addr.socket_addr), hx(&r.id.0));
+    match &r.body {
+        ResponseBody::Pong { enr_seq, ip, port } => {
+            format!("{}:pong:{}:{}", head, enr_seq, sock_num(&SocketAddr::new(*ip, port.get())))
+        }
+        ResponseBody::Nodes { total, nodes } => format!(
+            "{}:nodes:{}:{}:{}",
+            head,
+            total,
+            if nodes.is_empty() { "-".into() } else { nodes.iter().map(rec_short).collect::<Vec<_>>().join(",") },
+            nodes.iter().map(rec_size).sum::<usize>()
+        ),
+        ResponseBody::Talk { response } => format!("{}:talk:{}", head, hx(response)),
+    }
+}
+
+/// Wire size of the message packet that would carry this response: masking IV + static header +
+/// auth-data (source id) + ciphertext (= plaintext length) + AES-GCM tag.
+pub fn datagram_len(r: &Response) -> usize {
+    16 + 23 + 32 + response_encode(r.clone()).len() + 16
+}
+
+// ------------------------------------------------------------------------------------------------
+// runner
+
+pub struct ServiceRunner {
+    pub rt: Option<tokio::runtime::Runtime>,
+    pub insts: BTreeMap<char, Inst>,
+    pub seeds: HashMap<[u8; 32], u64>,
+    pub bans: BTreeSet<String>,
+    /// talk engine: request objects held by the "application"
+    pub talks: Vec<Option<TalkRequest>>,
+    pub talk_meta: Vec<(Vec<u8>, NodeAddress)>,
+    pub hold_talks: bool,
+}
+
+impl Default for ServiceRunner {
+    fn default() -> Self {
+        ServiceRunner {
+            rt: None,
+            insts: BTreeMap::new(),
+            seeds: HashMap::new(),
+            bans: BTreeSet::new(),
+            talks: Vec::new(),
+            talk_meta: Vec::new(),
+            hold_talks: false,
+        }
+    }
+}
+
+fn new_rt() -> tokio::runtime::Runtime {
+    tokio::runtime::Builder::new_current_thread().enable_all().start_paused(true).build().expect("runtime")
+}
+
+pub struct StepOut {
+    pub items: Vec<String>,
+    pub discovered: Vec<[u8; 32]>,
+    pub responses: Vec<(NodeAddress, Response)>,
+    pub new_reqs: Vec<usize>,
+    pub bans_ip: Vec<IpAddr>,
+    pub bans_node: Vec<NodeId>,
+    pub socket_updated: Vec<SocketAddr>,
+    pub talk_events: usize,
+}
+
+impl ServiceRunner {
+    pub fn settle(&self) {
+        if let Some(rt) = self.rt.as_ref() {
+            rt.block_on(async {
+                for _ in 0..3 {
+                    tokio::time::sleep(Duration::from_millis(1)).await;
+                }
+            });
+        }
+    }
+
+    pub fn remember(&mut self, tok: &str) {
+        if let Some(s) = tok.split(':').next().and_then(|k| k.strip_prefix('k')).and_then(|s| s.parse::<u64>().ok()) {
+            self.seeds.insert(id_of_seed(s), s);
+        }
+    }
+
+    pub fn rec(&mut self, tok: &str) -> Option<Enr> {
+        self.remember(tok);
+        parse_rec(tok)
+    }
+
+    /// Settles, drains instance `x`, canonicalises what was observed.
+    pub fn observe(&mut self, x: char, op_is_query: bool, op_is_api: bool) -> StepOut {
+        self.settle();
+        let mut so = StepOut {
+            items: vec![],
+            discovered: vec![],
+            responses: vec![],
+            new_reqs: vec![],
+            bans_ip: vec![],
+            bans_node: vec![],
+            socket_updated: vec![],
+            talk_events: 0,
+        };
+        let hold = self.hold_talks;
+        let mut dropped_talks = false;
+        let Some(inst) = self.insts.get_mut(&x) else { return so };
+        let obs = inst.drain(op_is_query, op_is_api);
+        let mut evs = Vec::new();
+        for o in obs {
+            match o {
+                Obs::Req(k) => {
+                    let r = &inst.reqs[k - 1];
+                    so.items.push(format!(
+                        "req:r{}:{}@{}:{}",
+                        k,
+                        id8(&r.contact.node_id().raw()),
+                        sock_num(&r.contact.socket_addr()),
+                        show_req_body(&r.body)
+                    ));
+                    so.new_reqs.push(k);
+                }
+                Obs::Resp(a, r) => {
+                    so.items.push(show_resp(&a, &r));
+                    so.responses.push((a, r));
+                }
+                Obs::Way(s) => so.items.push(s),
+                Obs::Ev(e) => match e {
+                    Event::Discovered(enr) => {
+                        so.discovered.push(enr.node_id().raw());
+                        evs.push(format!("ev:discovered:{}", rec_short(&enr)));
+                    }
+                    Event::NodeInserted { node_id, replaced } => evs.push(format!(
+                        "ev:inserted:{}:{}",
+                        id8(&node_id.raw()),
+                        replaced.map(|r| id8(&r.raw())).unwrap_or_else(|| "-".into())
+                    )),
+                    Event::SessionEstablished(enr, a) => {
+                        evs.push(format!("ev:established:{}@{}", rec_short(&enr), sock_num(&a)))
+                    }
+                    Event::SocketUpdated(a) => {
+                        so.socket_updated.push(a);
+                        evs.push(format!("ev:socket:{}", sock_num(&a)))
+                    }
+                    Event::UnverifiableEnr { node_id, .. } => evs.push(format!("ev:unverifiable:{}", id8(&node_id.raw()))),
+                    Event::TalkRequest(t) => {
+                        evs.push(format!(
+                            "ev:talkreq:{}:{}:{}:{}",
+                            hx(&t.id().0),
+                            id8(&t.node_id().raw()),
+                            hx(t.protocol()),
+                            hx(t.body())
+                        ));
+                        so.talk_events += 1;
+                        if hold {
+                            self.talks.push(Some(t));
+                        } else {
+                            // the "application" of the service engine drops the request at once
+                            drop(t);
+                            dropped_talks = true;
+                        }
+                    }
+                    _ => {}
+                },
+            }
+        }
+        if dropped_talks {
+            // the empty TALKRESP sent by `Drop`
+            if let Some(hin) = inst.hin.as_mut() {
+                while let Ok(m) = hin.try_recv() {
+                    if let HandlerIn::Response(a, r) = m {
+                        so.items.push(show_resp(&a, &r));
+                        so.responses.push((a, *r));
+                    }
+                }
+            }
+        }
+        so.items.extend(evs);
+        let (ips, nodes) = ban_take();
+        let mut b: Vec<String> = Vec::new();
+        for n in &nodes {
+            b.push(format!("ban:{}", id8(&n.raw())));
+        }
+        for i in &ips {
+            b.push(format!("banip:{}", ip_num(i)));
+        }
+        b.sort();
+        for s in &b {
+            self.bans.insert(s.clone());
+        }
+        so.items.extend(b);
+        so.bans_ip = ips;
+        so.bans_node = nodes;
+        // finished user-level calls
+        let rt = self.rt.as_ref().unwrap();
+        let mut i = 0;
+        while i < inst.api.len() {
+            if inst.api[i].1.is_finished() {
+                let (k, h) = inst.api.remove(i);
+                let s = rt.block_on(h).unwrap_or_else(|_| "panic".into());
+                so.items.push(format!("cb:r{}:{}", k, s));
+            } else {
+                i += 1;
+            }
+        }
+        so
+    }
+
+    /// C12 monitors + table digest of instance `x` after an op.
+    pub fn table_monitors(&mut self, x: char, op: &str, op_id: Option<[u8; 32]>, out: &mut Vec<String>, stats: &mut Stats) -> String {
+        let Some(inst) = self.insts.get_mut(&x) else { return "T=none".into() };
+        let snap = inst.snapshot();
+        let mut prev_vals: HashMap<[u8; 32], Enr> = HashMap::new();
+        for b in inst.prev.values() {
+            for n in b.nodes.iter().chain(b.pending.iter()) {
+                prev_vals.insert(n.id, n.enr.clone());
+            }
+        }
+        let admits = op == "sest" || op == "sadd";
+        let mut full = false;
+        for (i, b) in &snap {
+            if b.nodes.len() >= 16 {
+                full = true;
+            }
+            for n in b.nodes.iter().chain(b.pending.iter()) {
+                if contactable_addr(inst.mode, &n.enr).is_none() {
+                    out.push(format!("!MON C12 entry-not-contactable id={} op={}", id8(&n.id), op));
+                }
+                if !passes(inst.filter, &n.enr) {
+                    out.push(format!("!MON C12 entry-fails-table-filter id={} op={}", id8(&n.id), op));
+                }
+                if n.id == inst.local_id {
+                    out.push(format!("!MON C12 local-node-in-table op={}", op));
+                }
+                if n.enr.node_id().raw() != n.id {
+                    out.push(format!("!MON C12 value-under-foreign-key id={} op={}", id8(&n.id), op));
+                }
+                if log2_idx(&inst.local_id, &n.id) != Some(*i) {
+                    out.push(format!("!MON C12 entry-in-wrong-bucket id={} op={}", id8(&n.id), op));
+                }
+                match prev_vals.get(&n.id) {
+                    None => {
+                        if !admits {
+                            out.push(format!("!MON C12 entry-appeared-without-session-or-add id={} op={}", id8(&n.id), op));
+                        } else if op_id != Some(n.id) {
+                            out.push(format!("!MON C12 foreign-entry-appeared id={} op={}", id8(&n.id), op));
+                        }
+                    }
+                    Some(old) => {
+                        if *old != n.enr && !admits {
+                            stats.bump("s.network-update");
+                            if n.enr.seq() <= old.seq() || n.enr.node_id() != old.node_id() {
+                                out.push(format!(
+                                    "!MON C12 stored-record-replaced-by-not-newer id={} old={} new={} op={}",
+                                    id8(&n.id),
+                                    old.seq(),
+                                    n.enr.seq(),
+                                    op
+                                ));
+                            }
+                        }
+                    }
+                }
+            }
+        }
+        if full {
+            stats.bump("s.ops-with-full-bucket");
+        }
+        if snap.values().any(|b| b.pending.is_some()) {
+            stats.bump("s.ops-with-pending");
+        }
+        let d = Inst::digest(&snap, false);
+        inst.prev = snap;
+        format!("T={}", d)
+    }
+
+    fn finish(&mut self, x: char, op: &str, op_id: Option<[u8; 32]>, so: StepOut, extra: Option<String>, out: &mut Vec<String>, stats: &mut Stats) {
+        let t = self.table_monitors(x, op, op_id, out, stats);
+        // canonical grouping: handler-channel messages, events, new bans (sorted), callbacks
+        let class = |s: &String| {
+            if s.starts_with("ev:") {
+                1
+            } else if s.starts_with("ban") {
+                2
+            } else if s.starts_with("cb:") {
+                3
+            } else {
+                0
+            }
+        };
+        let mut items: Vec<String> = Vec::new();
+        for c in 0..4 {
+            let mut g: Vec<String> = so.items.iter().filter(|s| class(s) == c).cloned().collect();
+            if c == 2 {
+                g.sort();
+                g.dedup();
+            }
+            items.extend(g);
+        }
+        if let Some(e) = extra {
+            items.insert(0, e);
+        }
+        let body = if items.is_empty() { "-".to_string() } else { items.join(" ") };
+        out.push(format!("{} | {}", body, t));
+    }
+
+    /// Suffix of a resolved op: peers of the query-originated requests emitted, query finished.
+    fn query_suffix(&mut self, x: char, so: &StepOut) -> String {
+        let mut s = String::new();
+        let Some(inst) = self.insts.get_mut(&x) else { return s };
+        let q: Vec<String> = so
+            .new_reqs
+            .iter()
+            .filter(|k| inst.reqs[**k - 1].is_query)
+            .map(|k| hex::encode(inst.reqs[*k - 1].contact.node_id().raw()))
+            .collect();
+        if !q.is_empty() {
+            s.push_str(&format!(" q={}", q.join(",")));
+        }
+        if let Some(h) = inst.query.as_ref() {
+            if h.is_finished() {
+                let h = inst.query.take().unwrap();
+                let r = self.rt.as_ref().unwrap().block_on(h).unwrap_or_else(|_| "panic".into());
+                s.push_str(" qfin");
+                s.push_str(&format!("\n!INFO query-result {}", r));
+            }
+        }
+        s
+    }
+
+    /// Resolves the ITEMS of a NODES answer into records.
+    fn items(&mut self, x: char, k: usize, toks: &str) -> Vec<Enr> {
+        let mut v = Vec::new();
+        if toks == "-" {
+            return v;
+        }
+        let (resp_id, resp_enr, requested, local_enr) = {
+            let inst = &self.insts[&x];
+            let r = &inst.reqs[k - 1];
+            let ds = match &r.body {
+                RequestBody::FindNode { distances } => distances.clone(),
+                _ => vec![],
+            };
+            (r.contact.node_id().raw(), r.contact.enr(), ds, inst.discv5.local_enr())
+        };
+        for it in toks.split(',') {
+            let f: Vec<&str> = it.split(':').collect();
+            match f[0] {
+                "@in" | "@at" => {
+                    // a record at a requested (or given) distance from the responder
+                    let (d, base, pad) = if f[0] == "@in" {
+                        let d = requested.iter().copied().filter(|d| *d >= 246 && *d <= 256).max();
+                        (d, f.get(1).and_then(|s| s.parse::<u64>().ok()).unwrap_or(0), f.get(2).and_then(|s| s.parse::<usize>().ok()).unwrap_or(0))
+                    } else {
+                        (
+                            f.get(1).and_then(|s| s.parse::<u64>().ok()),
+                            f.get(2).and_then(|s| s.parse::<u64>().ok()).unwrap_or(0),
+                            f.get(3).and_then(|s| s.parse::<usize>().ok()).unwrap_or(0),
+                        )
+                    };
+                    if let Some(d) = d {
+                        if d >= 246 {
+                            if let Some(s) = mine(base, |id| dist(&resp_id, id) == d) {
+                                self.seeds.insert(id_of_seed(s), s);
+                                if let Some(e) = build_rec(s, 1 + base % 5, "4", pad) {
+                                    v.push(e);
+                                }
+                            }
+                        }
+                    }
+                }
+                "@off" => {
+                    let base = f.get(1).and_then(|s| s.parse::<u64>().ok()).unwrap_or(0);
+                    if let Some(s) = mine(base, |id| {
+                        let d = dist(&resp_id, id);
+                        d != 0 && !requested.contains(&d)
+                    }) {
+                        self.seeds.insert(id_of_seed(s), s);
+                        if let Some(e) = build_rec(s, 1, "4", 0) {
+                            v.push(e);
+                        }
+                    }
+                }
+                "@own" => {
+                    // the responder's own record: seq delta and shape
+                    let dseq: i64 = f.get(1).and_then(|s| s.parse().ok()).unwrap_or(0);
+                    let shape = f.get(2).copied().unwrap_or("same");
+                    if let Some(seed) = self.seeds.get(&resp_id).copied() {
+                        let base_seq = resp_enr.as_ref().map(|e| e.seq()).unwrap_or(1) as i64;
+                        let seq = (base_seq + dseq).max(0) as u64;
+                        if shape == "same" && dseq == 0 {
+                            if let Some(e) = resp_enr.clone() {
+                                v.push(e);
+                            }
+                        } else {
+                            let sh = if shape == "same" { "4" } else { shape };
+                            if let Some(e) = build_rec(seed, seq, sh, 0) {
+                                v.push(e);
+                            }
+                        }
+                    }
+                }
+                "@me" => v.push(local_enr.clone()),
+                _ => {
+                    if let Some(e) = self.rec(it) {
+                        v.push(e);
+                    }
+                }
+            }
+        }
+        v
+    }
+
+    /// Injects one NODES packet for request `k` of `x` and evaluates the C11 monitors on what the
+    /// service did with it.  Returns the observation.
+    fn inject_nodes(
+        &mut self,
+        x: char,
+        k: usize,
+        from: NodeAddress,
+        total: u64,
+        nodes: Vec<Enr>,
+        honest: bool,
+        out: &mut Vec<String>,
+        stats: &mut Stats,
+    ) -> StepOut {
+        let (id, right_addr, requested, resp_id, callback, is_findnode, max_nodes, local_id) = {
+            let inst = &self.insts[&x];
+            let r = &inst.reqs[k - 1];
+            let ds = match &r.body {
+                RequestBody::FindNode { distances } => distances.clone(),
+                _ => vec![],
+            };
+            (
+                r.id.clone(),
+                r.contact.node_address() == from,
+                ds,
+                r.contact.node_id().raw(),
+                r.callback,
+                matches!(r.body, RequestBody::FindNode { .. }),
+                inst.max_nodes,
+                inst.local_id,
+            )
+        };
+        // the harness's own recomputation of which records are on-distance
+        let enr_only = requested.len() == 1 && requested[0] == 0;
+        let flags: Vec<([u8; 32], bool)> = nodes
+            .iter()
+            .map(|e| {
+                let nid = e.node_id().raw();
+                (nid, requested.contains(&dist(&resp_id, &nid)))
+            })
+            .collect();
+        let conforming = flags.iter().all(|(_, ok)| *ok) && !(enr_only && nodes.len() > 1);
+        let was_active = self.insts[&x].reqs[k - 1].outstanding;
+        let resp = Response { id, body: ResponseBody::Nodes { total, nodes: nodes.clone() } };
+        let _ = self.insts[&x].hout.try_send(HandlerOut::Response(from.clone(), Box::new(resp)));
+        let so = self.observe(x, self.insts[&x].reqs[k - 1].is_query, false);
+        let banned = so.bans_node.iter().any(|n| n.raw() == from.node_id.raw()) || so.bans_ip.contains(&from.socket_addr.ip());
+        let inst = self.insts.get_mut(&x).unwrap();
+        let r = &mut inst.reqs[k - 1];
+        let processed = was_active && right_addr && is_findnode && !callback;
+        if !was_active || !right_addr {
+            // a packet for a completed / unknown request, or from another address, must be ignored
+            if !so.discovered.is_empty() {
+                out.push(format!("!MON C11 packet-after-completion-processed req=r{}", k));
+            }
+            if banned && !was_active {
+                stats.bump("s.c11.late-packet-banned");
+            }
+            if was_active && !right_addr {
+                r.outstanding = false; // the service drops the request (see report)
+            }
+            stats.bump("s.c11.ignored-packet");
+            return so;
+        }
+        if !is_findnode || callback {
+            r.outstanding = false;
+            return so;
+        }
+        stats.bump("s.c11.nodes-packets");
+        // bans
+        if conforming && banned {
+            out.push(format!(
+                "!MON C11 {} req=r{} requested={}",
+                if honest { "honest-responder-banned" } else { "conforming-responder-banned" },
+                k,
+                show_dists(&requested, ".")
+            ));
+        }
+        if !conforming && !banned {
+            out.push(format!("!MON C11 not-banned-for-off-distance req=r{} requested={}", k, show_dists(&requested, ".")));
+        }
+        if !conforming {
+            stats.bump("s.c11.off-distance-packets");
+        }
+        if banned {
+            stats.bump("s.c11.bans");
+        }
+        // packet accounting, recomputed
+        r.packets.push(flags.clone());
+        let kept = flags.iter().filter(|(_, ok)| *ok).count();
+        let waits = total > 1 && r.received < max_nodes && (r.count as u64) < total && r.count < 15;
+        if waits {
+            r.count += 1;
+            r.received += kept;
+            if !so.discovered.is_empty() {
+                out.push(format!("!MON C11 records-processed-before-completion req=r{}", k));
+            }
+        } else {
+            r.outstanding = false;
+            r.completed_seen = true;
+            stats.bump("s.c11.completions");
+            if r.packets.len() > 1 {
+                stats.bump("s.c11.multi-packet-completions");
+            }
+            if r.packets.len() >= 15 {
+                stats.bump("s.c11.completions-at-packet-limit");
+            }
+            // accepted records = Discovered events (the local id is dropped silently)
+            let mut expect: Vec<[u8; 32]> = Vec::new();
+            for (pi, p) in r.packets.iter().enumerate() {
+                for (nid, ok) in p {
+                    if *ok && *nid != local_id && pi < 15 {
+                        expect.push(*nid);
+                    }
+                }
+            }
+            let mut got = so.discovered.clone();
+            let mut exp_sorted = expect.clone();
+            exp_sorted.sort();
+            got.sort();
+            if got != exp_sorted {
+                for g in &got {
+                    if !expect.contains(g) {
+                        let off = r.packets.iter().any(|p| p.iter().any(|(n, ok)| n == g && !*ok));
+                        out.push(format!(
+                            "!MON C11 {} req=r{} id={}",
+                            if off { "accepted-off-distance-record" } else { "accepted-unexpected-record" },
+                            k,
+                            id8(g)
+                        ));
+                    }
+                }
+                for e in &expect {
+                    if !got.contains(e) {
+                        out.push(format!("!MON C11 on-distance-record-dropped req=r{} id={}", k, id8(e)));
+                    }
+                }
+                if got.len() != exp_sorted.len() && got.iter().all(|g| expect.contains(g)) && expect.iter().all(|e| got.contains(e)) {
+                    out.push(format!("!MON C11 accepted-multiset-differs req=r{}", k));
+                }
+            }
+        }
+        if r.packets.len() > 15 {
+            out.push(format!("!MON C11 too-many-packets-collected req=r{} n={}", k, r.packets.len()));
+        }
+        so
+    }
+
+    /// C14 monitors on the answers to a FINDNODE served by instance `y`.
+    fn c14_findnode(
+        &mut self,
+        y: char,
+        requester: &[u8; 32],
+        rid: &[u8],
+        ds: &[u64],
+        before: &BTreeMap<usize, SnapBucket>,
+        so: &StepOut,
+        out: &mut Vec<String>,
+        stats: &mut Stats,
+    ) {
+        let inst = &self.insts[&y];
+        let local = inst.discv5.local_enr();
+        let packets: Vec<&(NodeAddress, Response)> = so.responses.iter().collect();
+        if packets.is_empty() {
+            out.push("!MON C14 findnode-not-answered".into());
+            return;
+        }
+        let mut recs: Vec<Enr> = Vec::new();
+        for (_, r) in &packets {
+            if r.id.0 != rid {
+                out.push("!MON C14 response-with-other-request-id".into());
+            }
+            match &r.body {
+                ResponseBody::Nodes { total, nodes } => {
+                    if *total != packets.len() as u64 {
+                        out.push(format!("!MON C14 total-differs-from-packet-count total={} packets={}", total, packets.len()));
+                    }
+                    let len = datagram_len(r);
+                    if len > 1280 {
+                        out.push(format!("!MON C14 response-exceeds-datagram size={} records={}", len, nodes.len()));
+                    }
+                    if len > 1200 {
+                        stats.bump("s.c14.packets-over-1200");
+                    }
+                    recs.extend(nodes.iter().cloned());
+                }
+                _ => out.push("!MON C14 findnode-answered-with-other-type".into()),
+            }
+        }
+        if packets.len() > 1 {
+            stats.bump("s.c14.multi-packet-answers");
+        }
+        let want_own = ds.contains(&0);
+        let mut eligible: Vec<Enr> = Vec::new();
+        let mut sorted: Vec<u64> = ds.to_vec();
+        sorted.sort();
+        sorted.dedup();
+        let mut eligible_incl_requester = 0usize;
+        for d in &sorted {
+            if *d >= 1 && *d <= 256 {
+                if let Some(b) = before.get(&((*d - 1) as usize)) {
+                    for n in &b.nodes {
+                        eligible_incl_requester += 1;
+                        if &n.id != requester {
+                            eligible.push(n.enr.clone());
+                        }
+                    }
+                }
+            }
+        }
+        let mut rest: Vec<Enr> = recs.clone();
+        if want_own {
+            if rest.first().map(|e| *e == local).unwrap_or(false) {
+                rest.remove(0);
+            } else {
+                out.push("!MON C14 own-record-missing-for-distance-0".into());
+            }
+        }
+        if rest.iter().any(|e| *e == local) && !eligible.iter().any(|e| *e == local) {
+            out.push("!MON C14 own-record-without-distance-0".into());
+        }
+        if recs.iter().any(|e| &e.node_id().raw() == requester) {
+            out.push("!MON C14 requester-record-returned".into());
+        }
+        for e in &rest {
+            if !eligible.contains(e) {
+                out.push(format!("!MON C14 record-not-at-requested-distance id={}", id8(&e.node_id().raw())));
+            }
+        }
+        let mut seen = HashSet::new();
+        for e in &rest {
+            if !seen.insert(e.node_id().raw()) {
+                out.push(format!("!MON C14 record-returned-twice id={}", id8(&e.node_id().raw())));
+            }
+        }
+        if eligible_incl_requester <= inst.max_nodes {
+            for e in &eligible {
+                if !rest.contains(e) {
+                    out.push(format!("!MON C14 table-entry-missing-from-answer id={}", id8(&e.node_id().raw())));
+                }
+            }
+        } else {
+            stats.bump("s.c14.capped-answers");
+            if rest.len() + 1 < inst.max_nodes.min(eligible.len()) {
+                out.push(format!("!MON C14 capped-answer-too-short n={}", rest.len()));
+            }
+        }
+        if rest.len() > inst.max_nodes {
+            out.push(format!("!MON C14 more-records-than-configured-maximum n={}", rest.len()));
+        }
+        if !rest.is_empty() {
+            stats.bump("s.c14.nonempty-answers");
+        }
+    }
+}
+
+fn parse_u64_tok(t: &str) -> Option<u64> {
+    t.parse().ok()
+}
+
+impl Runner for ServiceRunner {
+    fn reset(&mut self) {
+        self.insts.clear();
+        self.talks.clear();
+        self.talk_meta.clear();
+        self.rt = None;
+        self.seeds.clear();
+        self.bans.clear();
+        self.rt = Some(new_rt());
+    }
+
+    fn step(&mut self, line: &str, out: &mut Vec<String>, stats: &mut Stats) {
+        if self.rt.is_none() {
+            self.rt = Some(new_rt());
+        }
+        let t: Vec<&str> = line.split(' ').collect();
+        let noop = |out: &mut Vec<String>| {
+            out.push("!OP snop".into());
+            out.push("noop".into());
+        };
+        let x = t.get(1).and_then(|s| s.chars().next()).unwrap_or('?');
+        match t.as_slice() {
+            ["snew", _, key, seq, shape, pad, mode_tok, filter, maxn, maxin, enrupd, rest @ ..] => {
+                let (Some(seed), Some(seq), Some(pad), Some(mode), Some(maxn), Some(maxin)) = (
+                    key.strip_prefix('k').and_then(|s| s.parse::<u64>().ok()),
+                    parse_u64_tok(seq),
+                    pad.parse::<usize>().ok(),
+                    parse_mode(mode_tok),
+                    maxn.parse::<usize>().ok(),
+                    maxin.parse::<usize>().ok(),
+                ) else {
+                    return noop(out);
+                };
+                let filter = if *filter == "rej" { Filter::Rej } else { Filter::All };
+                let enr_update = *enrupd == "1";
+                let vote_min = rest.first().and_then(|s| s.parse::<usize>().ok()).unwrap_or(10);
+                let Some(enr) = build_rec(seed, seq, shape, pad) else { return noop(out) };
+                self.seeds.insert(id_of_seed(seed), seed);
+                self.insts.remove(&x);
+                let rt = self.rt.as_ref().unwrap();
+                let Some(inst) = Inst::start(rt, x, seed, enr.clone(), mode, filter, maxn, maxin, enr_update, vote_min) else {
+                    return noop(out);
+                };
+                self.insts.insert(x, inst);
+                stats.bump("s.instances");
+                out.push(format!(
+                    "!OP snew {} {} {} {} {} {}",
+                    x,
+                    rec_abs(&enr, filter),
+                    mode_tok,
+                    maxn,
+                    maxin.min(16),
+                    enr_update as u8
+                ));
+                out.push("ok".into());
+            }
+            _ if !self.insts.contains_key(&x) && t[0] != "sbans" => noop(out),
+            ["sadd", _, rec] => {
+                let Some(enr) = self.rec(rec) else { return noop(out) };
+                let f = self.insts[&x].filter;
+                let r = self.insts[&x].discv5.add_enr(enr.clone());
+                stats.bump(if r.is_ok() { "s.add.ok" } else { "s.add.err" });
+                let so = self.observe(x, false, false);
+                out.push(format!("!OP sadd {} {}", x, rec_abs(&enr, f)));
+                let res = if r.is_ok() { "ok".to_string() } else { "err:add".to_string() };
+                self.finish(x, "sadd", Some(enr.node_id().raw()), so, Some(res), out, stats);
+            }
+            ["sest", _, rec, addr, dir] => {
+                let Some(enr) = self.rec(rec) else { return noop(out) };
+                let (f, mode) = (self.insts[&x].filter, self.insts[&x].mode);
+                let a = if *addr == "=" {
+                    contactable_addr(mode, &enr).unwrap_or_else(|| "10.9.9.9:9999".parse().unwrap())
+                } else {
+                    match parse_addr(addr) {
+                        Some(a) => a,
+                        None => return noop(out),
+                    }
+                };
+                let d = if *dir == "i" { ConnectionDirection::Incoming } else { ConnectionDirection::Outgoing };
+                let _ = self.insts[&x].hout.try_send(HandlerOut::Established(enr.clone(), a, d));
+                stats.bump("s.established");
+                let so = self.observe(x, false, false);
+                out.push(format!("!OP sest {} {} {} {}", x, rec_abs(&enr, f), sock_num(&a), dir));
+                self.finish(x, "sest", Some(enr.node_id().raw()), so, None, out, stats);
+            }
+            ["srm", _, peer] => {
+                let Some(id) = parse_peer(peer) else { return noop(out) };
+                let r = self.insts[&x].discv5.remove_node(&NodeId::new(&id));
+                let so = self.observe(x, false, false);
+                out.push(format!("!OP srm {} {}", x, hex::encode(id)));
+                self.finish(x, "srm", None, so, Some(format!("removed={}", r)), out, stats);
+            }
+            ["sunverifiable", _, rec] => {
+                let Some(enr) = self.rec(rec) else { return noop(out) };
+                let a: SocketAddr = "10.9.9.8:9998".parse().unwrap();
+                let _ = self.insts[&x].hout.try_send(HandlerOut::UnverifiableEnr { enr: enr.clone(), socket: a, node_id: enr.node_id() });
+                let so = self.observe(x, false, false);
+                out.push(format!("!OP sunverifiable {} {}", x, hex::encode(enr.node_id().raw())));
+                self.finish(x, "sunverifiable", None, so, None, out, stats);
+            }
+            ["sreq", _, peer, addr, rid, kind, args @ ..] => {
+                let (Some(id), Some(a), Some(ridb)) = (parse_peer(peer), parse_addr(addr), unhx(rid)) else { return noop(out) };
+                let body = match (*kind, args) {
+                    ("ping", [seq]) => match parse_u64_tok(seq) {
+                        Some(s) => RequestBody::Ping { enr_seq: s },
+                        None => return noop(out),
+                    },
+                    ("findnode", [ds]) => match parse_dists(ds) {
+                        Some(d) => RequestBody::FindNode { distances: d },
+                        None => return noop(out),
+                    },
+                    ("talk", [p, q]) => match (unhx(p), unhx(q)) {
+                        (Some(p), Some(q)) => RequestBody::Talk { protocol: p, request: q },
+                        _ => return noop(out),
+                    },
+                    _ => return noop(out),
+                };
+                let na = NodeAddress { socket_addr: a, node_id: NodeId::new(&id) };
+                let before = self.insts[&x].prev.clone();
+                let local_seq = self.insts[&x].discv5.local_enr().seq();
+                let req = Request { id: RequestId(ridb.clone()), body: body.clone() };
+                let _ = self.insts[&x].hout.try_send(HandlerOut::Request(na.clone(), Box::new(req)));
+                let so = self.observe(x, false, false);
+                match &body {
+                    RequestBody::FindNode { distances } => {
+                        stats.bump("s.c14.findnode-served");
+                        self.c14_findnode(x, &id, &ridb, distances, &before, &so, out, stats);
+                    }
+                    RequestBody::Ping { .. } => {
+                        stats.bump("s.c14.ping-served");
+                        let pongs: Vec<&(NodeAddress, Response)> =
+                            so.responses.iter().filter(|(_, r)| matches!(r.body, ResponseBody::Pong { .. })).collect();
+                        if a.port() == 0 {
+                            if !pongs.is_empty() {
+                                out.push("!MON C14 pong-to-port-zero".into());
+                            }
+                        } else if pongs.len() != 1 {
+                            out.push(format!("!MON C14 ping-answered-{}-times", pongs.len()));
+                        } else {
+                            let (to, r) = pongs[0];
+                            if let ResponseBody::Pong { enr_seq, ip, port } = &r.body {
+                                if *enr_seq != local_seq {
+                                    out.push(format!("!MON C14 pong-wrong-seq got={} local={}", enr_seq, local_seq));
+                                }
+                                if *ip != a.ip() || port.get() != a.port() {
+                                    out.push(format!("!MON C14 pong-not-observed-source got={}:{} src={}", ip, port, a));
+                                }
+                            }
+                            if r.id.0 != ridb || *to != na {
+                                out.push("!MON C14 pong-wrong-id-or-destination".into());
+                            }
+                        }
+                        if so.new_reqs.len() == 1 {
+                            stats.bump("s.enr-request-after-ping");
+                        }
+                    }
+                    RequestBody::Talk { .. } => {
+                        stats.bump("s.talk-served");
+                        let n = so.responses.iter().filter(|(to, r)| r.id.0 == ridb && *to == na && matches!(&r.body, ResponseBody::Talk { response } if response.is_empty())).count();
+                        if n != 1 || so.responses.len() != 1 {
+                            out.push(format!("!MON C20 dropped-talk-request-answered-{}-times", so.responses.len()));
+                        }
+                    }
+                }
+                out.push(format!(
+                    "!OP sreq {} {} {} {} {}",
+                    x,
+                    hex::encode(id),
+                    sock_num(&a),
+                    rid,
+                    match &body {
+                        RequestBody::Ping { enr_seq } => format!("ping {}", enr_seq),
+                        RequestBody::FindNode { distances } => format!("findnode {}", show_dists(distances, ",")),
+                        RequestBody::Talk { protocol, request } => format!("talk {} {}", hx(protocol), hx(request)),
+                    }
+                ));
+                self.finish(x, "sreq", None, so, None, out, stats);
+            }
+            ["sresp", _, rf, src, kind, args @ ..] => {
+                let Some(k) = self.insts[&x].resolve_ref(rf) else { return noop(out) };
+                let contact_addr = self.insts[&x].reqs[k - 1].contact.node_address();
+                let from = if *src == "ok" {
+                    contact_addr.clone()
+                } else if let Some(a) = src.strip_prefix("addr:").and_then(parse_addr) {
+                    NodeAddress { socket_addr: a, node_id: contact_addr.node_id }
+                } else if let Some(p) = src.strip_prefix("id:").and_then(parse_peer) {
+                    NodeAddress { socket_addr: contact_addr.socket_addr, node_id: NodeId::new(&p) }
+                } else {
+                    return noop(out);
+                };
+                let f = self.insts[&x].filter;
+                let head = format!("sresp {} r{} {} {}", x, k, hex::encode(from.node_id.raw()), sock_num(&from.socket_addr));
+                match (*kind, args) {
+                    ("nodes", [total, items]) => {
+                        let Some(total) = parse_u64_tok(total) else { return noop(out) };
+                        let nodes = self.items(x, k, items);
+                        let so = self.inject_nodes(x, k, from, total, nodes.clone(), false, out, stats);
+                        let sfx = self.query_suffix(x, &so);
+                        let recs = if nodes.is_empty() { "-".to_string() } else { nodes.iter().map(|e| rec_abs(e, f)).collect::<Vec<_>>().join(",") };
+                        out.push(format!("!OP {} nodes {} {}{}", head, total, recs, sfx));
+                        self.finish(x, "sresp", None, so, None, out, stats);
+                    }
+                    ("pong", [seq, addr]) => {
+                        let base = self.insts[&x].reqs[k - 1].contact.enr().map(|e| e.seq()).unwrap_or(0);
+                        let seq = if let Some(d) = seq.strip_prefix('+') { base + d.parse::<u64>().unwrap_or(0) } else { seq.parse::<u64>().unwrap_or(0) };
+                        let Some(a) = parse_addr(addr) else { return noop(out) };
+                        let Some(port) = NonZeroU16::new(a.port()) else { return noop(out) };
+                        let id = self.insts[&x].reqs[k - 1].id.clone();
+                        let resp = Response { id, body: ResponseBody::Pong { enr_seq: seq, ip: a.ip(), port } };
+                        let local_before = self.insts[&x].discv5.local_enr();
+                        let _ = self.insts[&x].hout.try_send(HandlerOut::Response(from.clone(), Box::new(resp)));
+                        let so = self.observe(x, false, false);
+                        let inst = self.insts.get_mut(&x).unwrap();
+                        if inst.reqs[k - 1].outstanding {
+                            inst.reqs[k - 1].outstanding = false;
+                            stats.bump("s.pong-processed");
+                        }
+                        let local_after = inst.discv5.local_enr();
+                        let mut vote = String::new();
+                        if local_after != local_before {
+                            stats.bump("s.c17.local-record-changed");
+                            vote = format!(" local={}", rec_abs(&local_after, f));
+                            if !local_after.verify() {
+                                out.push("!MON C17 local-record-signature-invalid".into());
+                            }
+                            if local_after.seq() <= local_before.seq() {
+                                out.push("!MON C17 seq-not-increased".into());
+                            }
+                            if so.socket_updated.is_empty() {
+                                out.push("!MON C17 no-socket-updated-event".into());
+                            }
+                        } else if !so.socket_updated.is_empty() {
+                            out.push("!MON C17 socket-updated-event-without-record-change".into());
+                        }
+                        out.push(format!("!OP {} pong {} {}{}", head, seq, sock_num(&a), vote));
+                        self.finish(x, "sresp", None, so, None, out, stats);
+                    }
+                    ("talk", [payload]) => {
+                        let Some(p) = unhx(payload) else { return noop(out) };
+                        let id = self.insts[&x].reqs[k - 1].id.clone();
+                        let resp = Response { id, body: ResponseBody::Talk { response: p.clone() } };
+                        let _ = self.insts[&x].hout.try_send(HandlerOut::Response(from.clone(), Box::new(resp)));
+                        let so = self.observe(x, false, false);
+                        self.insts.get_mut(&x).unwrap().reqs[k - 1].outstanding = false;
+                        out.push(format!("!OP {} talk {}", head, hx(&p)));
+                        self.finish(x, "sresp", None, so, None, out, stats);
+                    }
+                    _ => noop(out),
+                }
+            }
+            ["sfail", _, rf] => {
+                let Some(k) = self.insts[&x].resolve_ref(rf) else { return noop(out) };
+                let id = self.insts[&x].reqs[k - 1].id.clone();
+                let is_q = self.insts[&x].reqs[k - 1].is_query;
+                let _ = self.insts[&x].hout.try_send(HandlerOut::RequestFailed(id, RequestError::Timeout));
+                let so = self.observe(x, is_q, false);
+                {
+                    let r = &mut self.insts.get_mut(&x).unwrap().reqs[k - 1];
+                    if r.outstanding && !r.callback && r.received > 0 {
+                        stats.bump("s.fail-with-partial-nodes");
+                    }
+                    r.outstanding = false;
+                }
+                stats.bump("s.failures");
+                let sfx = self.query_suffix(x, &so);
+                out.push(format!("!OP sfail {} r{}{}", x, k, sfx));
+                self.finish(x, "sfail", None, so, None, out, stats);
+            }
+            ["squery", _, target] => {
+                let Some(tg) = parse_peer(target) else { return noop(out) };
+                if self.insts[&x].query.is_some() {
+                    return noop(out);
+                }
+                let fut = self.insts[&x].discv5.find_node(NodeId::new(&tg));
+                let h = self.rt.as_ref().unwrap().spawn(async move {
+                    match fut.await {
+                        Ok(v) => format!("ok:{}", v.len()),
+                        Err(_) => "err".to_string(),
+                    }
+                });
+                self.insts.get_mut(&x).unwrap().query = Some(h);
+                let so = self.observe(x, true, false);
+                stats.bump("s.queries");
+                for k in &so.new_reqs {
+                    if let RequestBody::FindNode { distances } = &self.insts[&x].reqs[*k - 1].body {
+                        let d = distances.first().copied().unwrap_or(0);
+                        stats.bump(&format!("s.query-distance-class.{}", if d == 0 { "0".into() } else if d == 1 { "1".into() } else if d <= 8 { "2-8".into() } else if d <= 245 { "9-245".to_string() } else { "246-256".into() }));
+                    }
+                }
+                let sfx = self.query_suffix(x, &so);
+                out.push(format!("!OP squery {} {}{}", x, hex::encode(tg), sfx));
+                self.finish(x, "squery", None, so, None, out, stats);
+            }
+            ["sapi", _, kind, rec, args @ ..] => {
+                let Some(enr) = self.rec(rec) else { return noop(out) };
+                let f = self.insts[&x].filter;
+                let mode = self.insts[&x].mode;
+                let rt = self.rt.as_ref().unwrap();
+                let d = &self.insts[&x].discv5;
+                let (h, desc) = match (*kind, args) {
+                    ("ping", []) => {
+                        let fut = d.send_ping(enr.clone());
+                        (
+                            rt.spawn(async move {
+                                match fut.await {
+                                    Ok(p) => format!("pong:{}:{}", p.enr_seq, sock_num(&SocketAddr::new(p.ip, p.port))),
+                                    Err(_) => "err".to_string(),
+                                }
+                            }),
+                            "ping".to_string(),
+                        )
+                    }
+                    ("findnode", [ds]) => {
+                        let Some(dv) = parse_dists(ds) else { return noop(out) };
+                        let fut = d.find_node_designated_peer(enr.clone(), dv.clone());
+                        (
+                            rt.spawn(async move {
+                                match fut.await {
+                                    Ok(v) => format!("nodes:{}", if v.is_empty() { "-".to_string() } else { v.iter().map(rec_short).collect::<Vec<_>>().join(",") }),
+                                    Err(_) => "err".to_string(),
+                                }
+                            }),
+                            format!("findnode {}", show_dists(&dv, ",")),
+                        )
+                    }
+                    ("talk", [p, q]) => {
+                        let (Some(p), Some(q)) = (unhx(p), unhx(q)) else { return noop(out) };
+                        let Ok(contact) = NodeContact::try_from_enr(enr.clone(), mode) else {
+                            out.push(format!("!OP sapi {} talk {} {} {}", x, rec_abs(&enr, f), hx(&p), hx(&q)));
+                            let so = self.observe(x, false, true);
+                            self.finish(x, "sapi", None, so, None, out, stats);
+                            return;
+                        };
+                        let fut = d.talk_req(contact, p.clone(), q.clone());
+                        (
+                            rt.spawn(async move {
+                                match fut.await {
+                                    Ok(v) => format!("talk:{}", hx(&v)),
+                                    Err(_) => "err".to_string(),
+                                }
+                            }),
+                            format!("talk {} {}", hx(&p), hx(&q)),
+                        )
+                    }
+                    _ => return noop(out),
+                };
+                self.settle();
+                let nreq = self.insts[&x].reqs.len();
+                let inst = self.insts.get_mut(&x).unwrap();
+                inst.api.push((nreq + 1, h));
+                let mut so = self.observe(x, false, true);
+                // a call that did not produce a request finishes with an error that belongs to no request
+                so.items.retain(|i| !(i.starts_with("cb:") && so.new_reqs.is_empty()));
+                stats.bump("s.api-calls");
+                let (dk, dargs) = desc.split_once(' ').map(|(a, b)| (a.to_string(), format!(" {}", b))).unwrap_or((desc.clone(), String::new()));
+                out.push(format!("!OP sapi {} {} {}{}", x, dk, rec_abs(&enr, f), dargs));
+                self.finish(x, "sapi", None, so, None, out, stats);
+            }
+            ["shonest", _, rf, y] => {
+                let y = y.chars().next().unwrap_or('?');
+                let Some(k) = self.insts[&x].resolve_ref(rf) else { return noop(out) };
+                if !self.insts.contains_key(&y) || y == x {
+                    return noop(out);
+                }
+                let (rid, body, contact_addr) = {
+                    let r = &self.insts[&x].reqs[k - 1];
+                    (r.id.clone(), r.body.clone(), r.contact.node_address())
+                };
+                let RequestBody::FindNode { distances } = body.clone() else { return noop(out) };
+                if contact_addr.node_id.raw() != self.insts[&y].local_id {
+                    return noop(out);
+                }
+                // deliver to the honest responder
+                let x_enr = self.insts[&x].discv5.local_enr();
+                let from_addr = contactable_addr(IpMode::DualStack, &x_enr).unwrap_or_else(|| "10.0.0.1:9000".parse().unwrap());
+                let xa = NodeAddress { socket_addr: from_addr, node_id: x_enr.node_id() };
+                let before = self.insts[&y].snapshot();
+                let _ = self.insts[&y].hout.try_send(HandlerOut::Request(xa.clone(), Box::new(Request { id: rid.clone(), body })));
+                let so_y = self.observe(y, false, false);
+                stats.bump("s.c11.honest-exchanges");
+                self.c14_findnode(y, &x_enr.node_id().raw(), &rid.0, &distances, &before, &so_y, out, stats);
+                if let Some(inst) = self.insts.get_mut(&y) {
+                    inst.prev = inst.snapshot();
+                }
+                // feed the packets back
+                let mut all = StepOut { items: vec![], discovered: vec![], responses: vec![], new_reqs: vec![], bans_ip: vec![], bans_node: vec![], socket_updated: vec![], talk_events: 0 };
+                let mut npk = 0;
+                for (_, r) in so_y.responses.iter() {
+                    if let ResponseBody::Nodes { total, nodes } = &r.body {
+                        npk += 1;
+                        if !nodes.is_empty() {
+                            stats.bump("s.c11.honest-nonempty-packets");
+                        }
+                        let so = self.inject_nodes(x, k, contact_addr.clone(), *total, nodes.clone(), true, out, stats);
+                        all.items.extend(so.items);
+                        all.new_reqs.extend(so.new_reqs);
+                        all.bans_ip.extend(so.bans_ip);
+                        all.bans_node.extend(so.bans_node);
+                    }
+                }
+                if all.bans_node.iter().any(|n| n.raw() == contact_addr.node_id.raw()) || all.bans_ip.contains(&contact_addr.socket_addr.ip()) {
+                    out.push(format!("!MON C11 honest-responder-banned req=r{} requested={}", k, show_dists(&distances, ".")));
+                }
+                let sfx = self.query_suffix(x, &all);
+                out.push(format!("!OP shonest {} r{} {} {} {}{}", x, k, y, sock_num(&from_addr), hx(&rid.0), sfx));
+                self.finish(x, "shonest", None, all, Some(format!("pk={}", npk)), out, stats);
+            }
+            ["stable", _] => {
+                let snap = self.insts[&x].snapshot();
+                out.push(format!("!OP stable {}", x));
+                out.push(Inst::digest(&snap, true));
+            }
+            ["slocal", _] => {
+                let e = self.insts[&x].discv5.local_enr();
+                out.push(format!("!OP slocal {}", x));
+                out.push(format!(
+                    "{}:{}:{}:{}",
+                    hex::encode(e.node_id().raw()),
+                    e.seq(),
+                    e.udp4_socket().map(|s| sock_num(&SocketAddr::V4(s))).unwrap_or_else(|| "-".into()),
+                    e.udp6_socket().map(|s| sock_num(&SocketAddr::V6(s))).unwrap_or_else(|| "-".into())
+                ));
+            }
+            ["sbans"] => {
+                out.push("!OP sbans".into());
+                out.push(if self.bans.is_empty() { "-".into() } else { self.bans.iter().cloned().collect::<Vec<_>>().join(" ") });
+            }
+            _ => noop(out),
+        }
+    }
+}
+
+// ------------------------------------------------------------------------------------------------
+// generator
+
+pub fn gen_case(rng: &mut Rng, tier: &str, profile: &str, stats: &mut Stats) -> Vec<String> {
     Vec::new()
 }
